@@ -621,40 +621,23 @@ class _NewNode(SVal):
 
 # ---- _cache_results -----------------------------------------------------------------------------------------------------------------------
 class CacheResults:
-    """BaseDAGExecution._cache_results: what is pickled is the results of the run, minus the ids resolved from
-    cache_deps_of (ghost file system: the object handed to pickle.dump)"""
+    """BaseDAGExecution._cache_results: what is pickled is the results of the run, minus the nodes of cache_deps_of
+    (ghost file system: the object handed to pickle.dump).  From the property (C18: "with cache_deps_of=[n] the file holds
+    every result n depends on but not n's"): `cache_deps_of` holds the ids RESOLVED in __post_init__, and exactly these ids
+    are left out - resolving them once more as aliases (a tag spelled like an id wins there) was the defect repaired by
+    the `fix:` commit recorded in known_findings.json; the stub of alias_to_ids below models that second resolution as an
+    arbitrary set of ids, so code that goes through it again cannot prove the clause."""
 
     module = "tawazi._dag.dag"
     qualname = "BaseDAGExecution._cache_results"
-
-    def __init__(self):
-        self.loops = {0: self.Loop()}
-
-    class Loop(LoopSpec):
-        carried = ("non_cacheable_ids",)
-
-        def rebind(self, env):
-            return {"non_cacheable_ids": SSet.fresh("non_cacheable_ids", Id)}
-
-        def inv(self, env, st):
-            nc = env["non_cacheable_ids"]
-            i = bv("i!cr", I)
-            ids_of = C.ghost["ids_of"]
-            mem = (lambda t: nc.mem(t)) if isinstance(nc, SSet) else None
-            if mem is None:
-                raise ContractBindError("_cache_results: non_cacheable_ids is not a set")
-            return [
-                ("exactly_the_ids_of_the_aliases_seen_so_far", z3.ForAll([x], mem(x) == z3.Exists([i], z3.And(st.seen[i], ids_of(i)[x]))), {"C18"}),
-            ]
+    loops = {}
 
     def cases(self):
         return ["all", "deps_of"]
 
     def run(self, f, case):
         dumped, opened, mk = [], [], []
-        ids_arr = z3.Function("ids_of_alias", I, sym.SetSort(Id))
-        ids_of = lambda i: ids_arr(i)  # noqa: E731
-        C.ghost.update(ids_of=ids_of)
+        again = z3.Function("ids_when_resolved_again_as_alias", Id, sym.SetSort(Id))
 
         class _P(Sym):
             HIGHEST_PROTOCOL = 5
@@ -686,25 +669,13 @@ class CacheResults:
             def mkdir(self, **k):
                 mk.append(self.p)
 
-        class _AliasSeq(SSeq):
-            pass
-
-        n_al = C.fresh("n_aliases", I)
+        n_al = C.fresh("n_deps", I)
         C.assume(n_al >= 0)
-
-        class _Alias(Sym):
-            def __init__(self, i):
-                self.i = i
-
-            def _vc_subst(self, a, b):
-                return _Alias(z3.substitute(self.i, (a, b)))
+        ident = z3.Function("resolved_dep_id", I, Id)
 
         class _Dag(Sym):
             def alias_to_ids(self, alias):
-                if not isinstance(alias, _Alias):
-                    raise ContractBindError("_cache_results: alias_to_ids called with something else than an alias of cache_deps_of")
-                arr = ids_arr(alias.i)
-                return SList(SSet(Id, arr, C.fresh("c_ids", I), "ids"))
+                return SList(SSet(Id, again(term(alias)), C.fresh("c_ids", I), "ids"))
 
         class _Ex(Sym):
             pass
@@ -712,7 +683,7 @@ class CacheResults:
         ex = _Ex()
         ex.cache_in = "CACHE-PATH"
         ex.dag = _Dag()
-        ex.cache_deps_of = SSeq(n_al, lambda i: _Alias(i), list, "cache_deps_of") if case == "deps_of" else None
+        ex.cache_deps_of = SSeq(n_al, lambda i: SId(ident(i)), list, "cache_deps_of") if case == "deps_of" else None
         results = SMap.fresh("results", Id, Val)
         f.__globals__.update({"pickle": _P, "open": _open, "Path": _Path})
         f(ex, results)
@@ -728,8 +699,8 @@ class CacheResults:
             C.check(z3.And(obj.dom == results.dom, z3.ForAll([x], z3.Implies(results.dom[x], obj.val[x] == results.val[x]))), f"{n}.C18.all_results_of_the_run_are_cached", {"C18"}, "post")
             return "return"
         i = bv("i!cr", I)
-        excluded = lambda t: z3.Exists([i], z3.And(i >= 0, i < n_al, ids_arr(i)[t]))  # noqa: E731
-        C.check(z3.ForAll([x], obj.dom[x] == z3.And(results.dom[x], z3.Not(excluded(x)))), f"{n}.C18.every_result_except_those_of_cache_deps_of_is_cached", {"C18"}, "post")
+        excluded = lambda t: z3.Exists([i], z3.And(i >= 0, i < n_al, ident(i) == t))  # noqa: E731
+        C.check(z3.ForAll([x], obj.dom[x] == z3.And(results.dom[x], z3.Not(excluded(x)))), f"{n}.C18.every_result_except_those_of_the_nodes_in_cache_deps_of_is_cached", {"C18"}, "post")
         C.check(z3.ForAll([x], z3.Implies(obj.dom[x], obj.val[x] == results.val[x])), f"{n}.C18.cached_values_are_the_values_of_the_run", {"C18"}, "post")
         return "return"
 
